@@ -345,7 +345,7 @@ pub fn format_generics(
                 if concrete.contains_key(&type_param.ident) {
                     return None;
                 }
-                let ty = type_param.ident.to_string();
+                let ty = syn::ext::IdentExt::unraw(&type_param.ident).to_string();
                 if let Some(default) = &type_param.default {
                     deps.push(default);
                     Some(quote!(
